@@ -39,6 +39,7 @@ class LenClass:
         self.memo: Dict[int, tuple] = dict(seeds or {})
         self.seeded = set(self.memo)
         self.conflicts: List[Conflict] = []
+        self.positional: List = []     # (node, class): slice / integer index along a per-event axis
         self._busy = set()
 
     def seed(self, n: Node, c):
@@ -179,6 +180,8 @@ class LenClass:
                 return ("SEL", parent, self.g.vn(idx))
             b = is_basic_index(idx)
             if b is True:
+                if is_def(cb) and self._positional_index(idx):
+                    self.positional.append((n, cb))
                 if cb[0] in ("S", "TAB"):
                     return cb if self._is_slice(idx) else S
                 if idx.op == "Const" and idx.attr is Ellipsis:
@@ -253,6 +256,17 @@ class LenClass:
     def _cur(self, o):
         return o
 
+    def _positional_index(self, idx: Node) -> bool:
+        """does a basic index pick elements of the FIRST axis by position (x[k], x[a:b], x[a:b, ...])?"""
+        first = idx.args[0] if idx.op == "Tuple" and idx.args else idx
+        if first.op == "Slice":
+            return not all(a.op == "Const" and a.attr is None for a in first.args)
+        if first.op == "Const":
+            return isinstance(first.attr, int) and not isinstance(first.attr, bool)
+        if first.op in ("IterIdx", "LoopIdx", "Len"):
+            return True
+        return False
+
     def _is_slice(self, idx):
         return idx.op == "Slice" or (idx.op == "Tuple" and any(a.op == "Slice" for a in idx.args))
 
@@ -285,8 +299,11 @@ class LenClass:
         if short in X.ALLOC_LIKE:
             return self.of(pos[0]) if pos else TOP
         if short in ("asarray", "array", "copy", "asanyarray", "ascontiguousarray", "squeeze",
-                     "nan_to_num", "atleast_1d"):
+                     "nan_to_num", "atleast_1d", "ravel"):
             return self.of(pos[0]) if pos else TOP
+        if short == "broadcast_to" and len(pos) >= 2:
+            c = self.count_of(pos[1])
+            return self.join(self.of(pos[0]), c if c is not None else TOP, n, "broadcast_to target shape")
         if short in ("full", "zeros", "ones", "empty"):
             shp = pos[0] if pos else kws.get("shape")
             if shp is not None:
